@@ -53,8 +53,20 @@ mobility_from_composition_set called with the object's own callables):
                      rounding error of the solvent column is eps * x_solvent M_solvent (measured 7e-14 of the largest
                      entry at x_solute = 3e-4, growing as 1/x_solute), so the floating-point scale is used instead.
 
-Deliberately NOT asserted (statement silent): the labelling (element order) of the ternary interdiffusivity matrix
-(eigenvalues are permutation invariant; ordering is C11's subject); a multicomponent Darken formula; values with
+  interdiff_tracer_consistency
+                     (mobility databases, binary and ternary; added on the coordinator's request after a seeded change that
+                     dropped mobility_correction inside Mobility.interdiffusivity went unnoticed) the public
+                     interdiffusivity equals the volume-fixed-frame combination of the public tracer diffusivities and the
+                     curvature, D^n_kj = sum_i (delta_ik - x_k) x_i D*_i/(R_eff T) dmu_i/d(x_j - x_n) (Darken's equation
+                     for a binary), with dmu_i/dx from the phase record Hessian (no kawin code), entry by entry in the
+                     element order of the object, 1e-6 of sqrt(D_kk D_jj) (measured 4e-10).
+  Mobility corrections: two thirds of the cases on mobility databases run after therm.setMobilityCorrection - uniform
+  ('all', f) or on one/two elements (reference element included in ~half of them), f log-uniform in 0.2..8 - and every
+  mobility clause is evaluated with the corrected mobility f_i M_i: tracer = R T f_i M_i, compiled mobility vector,
+  Darken, flux_sum_zero (mobility_matrix called with the object's correction) and interdiff_tracer_consistency.  The
+  cached objects are reset to 1 after every case.
+
+Deliberately NOT asserted (statement silent): values with
 removeCache=False (history dependence is C09's subject - all public calls use the default removeCache=True);
 tracer = R T M and Darken for diffusivity-only databases (Al-Zr, Ni-Cr-Al 'DIFF' variant: no mobility exists, only
 positivity is asserted there); anything outside the region where the backend reports the matrix as the single stable
@@ -75,7 +87,8 @@ RULE = ('cases = (database, matrix phase, thermodynamics class, element order/re
         'agree to 5e-7) and all clauses applicable to the database kind were evaluated; distinct by (system, variant, '
         'block).')
 REQUIRED_MONITORS = ['call_succeeds', 'hessian_fd', 'hessian_reference', 'hessian_symmetric', 'hessian_posdef',
-                     'interdiff_eigen', 'tracer_positive', 'tracer_rtm', 'darken_binary', 'flux_sum_zero']
+                     'interdiff_eigen', 'tracer_positive', 'tracer_rtm', 'darken_binary', 'flux_sum_zero',
+                     'interdiff_tracer_consistency']
 REACH = ['thermo/FreeEnergyHessian.py:hessian', 'thermo/FreeEnergyHessian.py:totalddx',
          'thermo/FreeEnergyHessian.py:dMudX', 'thermo/FreeEnergyHessian.py:partialdMudX',
          'thermo/Mobility.py:mobility_from_composition_set', 'thermo/Mobility.py:tracer_diffusivity',
@@ -87,7 +100,8 @@ REACH = ['thermo/FreeEnergyHessian.py:hessian', 'thermo/FreeEnergyHessian.py:tot
          'thermo/Thermodynamics.py:GeneralThermodynamics.getTracerDiffusivity',
          'thermo/Thermodynamics.py:GeneralThermodynamics._tracerDiffusivitySingle',
          'thermo/Thermodynamics.py:GeneralThermodynamics.getLocalEq',
-         'thermo/LocalEquilibrium.py:local_equilibrium']
+         'thermo/LocalEquilibrium.py:local_equilibrium',
+         'thermo/Thermodynamics.py:GeneralThermodynamics.setMobilityCorrection']
 POINTS_PER_CASE = 12
 N_BLOCKS = {'quick': 20, 'thorough': 200}
 MIN_NONTRIVIAL = {'quick': 500, 'thorough': 5000}
@@ -124,6 +138,9 @@ H_REL_SETS = [[3.2e-2, 1.6e-2, 8e-3], [2.6e-2, 1.3e-2, 6.5e-3], [2.9e-2, 1.45e-2
 # FD step / min(x_j, x_ref): h, h/2, h/4.  Two sets must resolve and agree; later sets are retries (never wider than
 # the first: the smoothness probe loses sensitivity as h^4)
 TOL_FD_PAIR = 1e-6     # agreement of the Richardson values of two independent step-size sets
+CORR_MODES = ['none', 'all', 'elements']   # setMobilityCorrection: untouched / ('all', f) / one or two elements
+CORR_RANGE = (0.2, 8.0)                    # f log-uniform
+TOL_CONSIST = 1e-6                         # interdiffusivity vs tracer diffusivities x analytic curvature
 NT_XMIN = 1e-4
 
 # ------------------------------------------------------------------------------------------------ systems
@@ -202,6 +219,8 @@ def plan(tier, seed):
         for vi, (sysname, cls, els, phases) in enumerate(VARIANTS):
             cases.append({'system': sysname, 'variant': vi, 'cls': cls, 'elements': els, 'phases': phases,
                           'block': b, 'n': POINTS_PER_CASE, 'api': 'array' if (b + vi) % 3 == 0 else 'single',
+                          'correction': (CORR_MODES[(b // 3 + vi) % 3] if SYSTEMS[sysname]['model'] == 'mobility'
+                                         else 'none'),
                           'weight': 2.0 if len(els) == 3 else 1.0})
     return cases
 
@@ -377,6 +396,40 @@ def _projected_hessian(cs, labels, ref):
     return H
 
 
+def _dmu_all(cs, labels, ref):
+    """d mu_i / d(x_j - x_ref) for EVERY element i (rows, order of `labels`) and every j != ref, from the phase
+    record's Hessian Hy with respect to the site fractions of the substitutional sublattice:
+    mu_i = G + sum_l (delta_il - x_l) dG/dy_l  =>  d mu_i along v (sum v = 0) = sum_l (delta_il - x_l) (Hy v)_l.
+    Same applicability as _projected_hessian.  -> list over i of dict j -> value, or None"""
+    pr = cs.phase_record
+    dof = np.array(cs.dof, dtype=float)
+    ns = len(pr.state_variables)
+    idx = {}
+    for k, var in enumerate(pr.variables):
+        if var.species.name == 'VA':
+            if var.sublattice_index == 0:
+                return None
+            continue
+        if var.sublattice_index != 0 or var.species.name in idx:
+            return None
+        idx[var.species.name] = ns + k
+    if sorted(idx) != sorted(labels):
+        return None
+    d2g = np.zeros((len(dof), len(dof)))
+    pr.formulahess(d2g, dof)
+    y = np.array([dof[idx[e]] for e in labels])
+    out = []
+    for i, ei in enumerate(labels):
+        row = {}
+        for ej in labels:
+            if ej == ref:
+                continue
+            hv = np.array([d2g[idx[el], idx[ej]] - d2g[idx[el], idx[ref]] for el in labels])
+            row[ej] = float(sum(((1.0 if l == i else 0.0) - y[l]) * hv[l] for l in range(len(labels))))
+        out.append(row)
+    return out
+
+
 def _fd_G(therm, phase, els, X, T, hrel):
     """G[i, j] = d mu_i / d(e_j - e_ref0) by central differences; i alphabetical, j over els[1:] (input order).
 
@@ -522,6 +575,41 @@ def _sym_mobility(therm, phase, cs, el):
 # ------------------------------------------------------------------------------------------------ the case
 def run_case(case, R):
     from vlib import core
+    therm = _therm(case)
+    els = list(case['elements'])
+    # ---- mobility corrections through the public API (objects are cached per worker: always reset)
+    fac = {e: 1.0 for e in els}
+    mode = case.get('correction', 'none')
+    if mode != 'none':
+        crng = core.case_rng(case['seed'], PROPERTY, case['idx'], extra=1)
+        lo, hi = math.log(CORR_RANGE[0]), math.log(CORR_RANGE[1])
+        if mode == 'all':
+            f = float(math.exp(crng.uniform(lo, hi)))
+            fac = {e: f for e in els}
+        else:
+            k = 1 if len(els) == 2 else int(crng.integers(1, 3))
+            chosen = [els[i] for i in crng.permutation(len(els))[:k]]
+            if crng.random() < 0.4 and els[0] not in chosen:     # make sure the reference element is often included
+                chosen[0] = els[0]
+            for e in chosen:
+                fac[e] = float(math.exp(crng.uniform(lo, hi)))
+    try:
+        therm.setMobilityCorrection('all', 1)
+        if mode == 'all':
+            therm.setMobilityCorrection('all', fac[els[0]])
+        elif mode == 'elements':
+            for e in els:
+                if fac[e] != 1.0:
+                    therm.setMobilityCorrection(e, fac[e])
+        R.info['correction'] = {'mode': mode, 'factors': fac}
+        R.observe('cases_correction_' + mode)
+        _run_body(case, R, therm, fac)
+    finally:
+        therm.setMobilityCorrection('all', 1)
+
+
+def _run_body(case, R, therm, fac):
+    from vlib import core
     from kawin.thermo.FreeEnergyHessian import dMudX
     from kawin.thermo import Mobility as kmob
 
@@ -530,12 +618,14 @@ def run_case(case, R):
     els = list(case['elements'])
     n = len(els)
     model_kind = SYSTEMS[sysname]['model']
-    therm = _therm(case)
     phase = therm.phases[0]                     # 'FCC_A1' or kawin's 'DIS_FCC_A1'
     matrix = case['phases'][0]
     ref0 = els[0]
+    mode = case.get('correction', 'none')
+    corr_mech = mode if mode != 'elements' else ('elements_incl_ref' if fac[ref0] != 1.0 else 'elements_solute_only')
     mech0 = {'system': sysname, 'matrix': matrix, 'kawin_phase': phase, 'cls': case['cls'], 'n_elements': n,
-             'elements': '-'.join(els), 'model': model_kind}
+             'elements': '-'.join(els), 'model': model_kind, 'correction': corr_mech}
+    fvec = np.array([fac[e] for e in els])          # input order
     R.info['phase'] = phase
 
     admitted = []
@@ -695,7 +785,8 @@ def run_case(case, R):
             except Exception as e:
                 R.exception('call_succeeds', e, dict(mech, call='mobility'))
                 continue
-            Msym = np.array([_sym_mobility(therm, phase, cs, e) for e in els])    # input order
+            # database mobility of each element times the correction set through setMobilityCorrection
+            Msym = fvec * np.array([_sym_mobility(therm, phase, cs, e) for e in els])    # input order
             Mcomp = np.array([Mvec[labels.index(e)] for e in els])
             Reff = None
             if okT and np.all(Msym > 0):
@@ -744,6 +835,29 @@ def run_case(case, R):
                 else:
                     R.observe('darken_skipped_no_R')
                     clauses_done = False
+            # ------------------------------------------------------------ interdiffusivity vs tracer diffusivities
+            # D^n_kj = sum_i (delta_ik - x_k) x_i D*_i/(R T) dmu_i/d(x_j - x_n); dmu_i along e_j - e_n from the phase
+            # record Hessian Hy: sum_l (delta_il - x_l)(Hy_lj - Hy_ln)  (no kawin code); binary: Darken's equation
+            Phi = _dmu_all(cs, labels, ref0)
+            if Phi is None:
+                R.observe('consistency_reference_not_applicable')
+            elif Reff is not None and (D.shape == () or D.shape == (n - 1, n - 1)):
+                xl = np.array([xcs[labels.index(e)] for e in labels])
+                Ml = np.array([Dt[els.index(e)] for e in labels]) / (Reff * T)
+                rest = els[1:]
+                Dref = np.zeros((n - 1, n - 1))
+                for k, ek in enumerate(rest):
+                    for j, ej in enumerate(rest):
+                        Dref[k, j] = sum(((1.0 if ei == ek else 0.0) - xl[labels.index(ek)]) * xl[i] * Ml[i]
+                                         * Phi[i][ej] for i, ei in enumerate(labels))
+                Dm = np.atleast_2d(D)
+                sc = np.sqrt(np.abs(np.outer(np.diag(Dref), np.diag(Dref))))
+                rel = float(np.max(np.abs(Dm - Dref) / sc)) if np.all(sc > 0) and np.all(np.isfinite(Dm)) else float('inf')
+                R.worst('interdiff_consistency_rel', rel if math.isfinite(rel) else 1e300)
+                R.check('interdiff_tracer_consistency', rel <= TOL_CONSIST, m_api, D=Dm, expected=Dref, rel=rel,
+                        tracer=Dt, factors=fvec, elements=els, x=X, T=T)
+            else:
+                clauses_done = False
         if solutes_ok and clauses_done:
             nt = True
             R.observe('nontrivial_points')
@@ -759,7 +873,10 @@ MANIFEST = {
             'symmetry and positive definiteness; the public '
             'interdiffusivity must have a real positive spectrum, tracer diffusivities must be positive and equal R T times '
             'the symbolically evaluated database mobility of the same element, the binary interdiffusivity must satisfy the '
-            'Darken identity, and the columns of the mobility matrix must sum to zero over substitutional rows.',
+            'Darken identity, the public interdiffusivity must equal the volume-fixed-frame combination of the public tracer '
+            'diffusivities and the analytic curvature, and the columns of the mobility matrix must sum to zero over '
+            'substitutional rows; two thirds of the mobility cases run with uniform or per-element mobility corrections '
+            'set through setMobilityCorrection.',
     'note': 'trusted: pycalphad equilibrium solver (admissibility filter and chemical potentials at x+-h), symengine '
             'evaluation of the mobility expressions; the universal quantifier is sampled; points whose finite differences '
             'do not resolve to 5e-7 are counted and not judged for the curvature clause',
